@@ -332,6 +332,9 @@ func (s *Store[K, V]) GetWithSecodary(key K) (V, bool, error) {
 		// load and store should be atomic
 		shard.mu.Lock()
 		defer shard.mu.Unlock()
+		// unregister before the shard lock is released: a Get that misses
+		// afterwards must ask the secondary cache again, not join this finished call
+		defer shard.vgroup.forget(key)
 		v, cost, expire, ok, err := s.secondaryCache.Get(key)
 		if err != nil {
 			return v, err
